@@ -20,6 +20,7 @@ package tabix
 //@   modifies buf[:], object(r).err
 //@   ensures 0 <= n && n <= len(buf)
 //@   ensures err == nil <==> n == len(buf)
+//@   ensures (n == 0 && len(buf) > 0) <==> err == io.EOF
 //@ trusted func ext:strings.Split
 //@   ensures len(result) >= 1
 
